@@ -907,6 +907,7 @@ def one_history(ctx, r, nops, out):
     out.append(dict(line='new', expect='ok ' + state(cqm), k='new', hist=()))
     ncon = [0]
     views = {}       # id(RCon) -> (view object, RCon)
+    held = [cqm, cqm.variables, cqm.constraints, cqm.objective]   # objects REACHED from the model at the start: they must keep showing it
     orig = None      # (object, state string, …) of a model that was copied / is a copy and must stay as it was (`check_watched`)
     nw = [0]
 
@@ -1508,6 +1509,21 @@ def one_history(ctx, r, nops, out):
         if try_new and outcome == 'ok' and sout == 'ok':
             if not check_accessors(ctx, r, ns['new'], res, hist, site, name='new'):
                 return
+        # ---- round 8: `cqm.variables`, `cqm.constraints`, `cqm.objective` obtained BEFORE the history still show the model
+        if held[0] is not cqm:
+            held = [cqm, cqm.variables, cqm.constraints, cqm.objective]
+        try:
+            hv = ([lab(v) for v in held[1]], len(held[1]), [lab(l) for l in held[2]], len(held[2]), show_expr(held[3], canon=True))
+            nv = ([lab(v) for v in cqm.variables], len(cqm.variables), [lab(l) for l in cqm.constraints], len(cqm.constraints), show_expr(cqm.objective, canon=True))
+        except Exception as e:  # noqa
+            hv, nv = f'{type(e).__name__}: {e}', None
+        if hv != nv:
+            ctx.fail('property', site, 'objects obtained from the model earlier (variables / constraints / objective) are stale',
+                     f'`_v = cqm.variables; _c = cqm.constraints; _o = cqm.objective` taken when the model was created show {hv!r} after the history; fresh ones show {nv!r}',
+                     repro='_HELD = True\n' + repro_unexpected(hist).replace('cqm = CQM()\n', 'cqm = CQM()\n_v = cqm.variables; _c = cqm.constraints; _o = cqm.objective\n', 1)
+                     + 'assert list(_v) == list(cqm.variables) and list(_c) == list(cqm.constraints) and _o.is_equal(cqm.objective)\n',
+                     detail=dict(history=list(hist), held=repr(hv), fresh=repr(nv)))
+            return
         # ---- views taken earlier keep pointing at their constraint; removed ones are invalid
         for key, (view, _) in list(views.items()):
             rc = next((c for c in ref.cons.values() if c.uid == key), None)
@@ -1532,7 +1548,7 @@ def one_history(ctx, r, nops, out):
 
 def run(ctx):
     r = ctx.rng
-    nhist = ctx.scale(800, 12000)
+    nhist = ctx.scale(700, 12000)
     ctx.rule = ('random histories (<= 30 ops) of public CQM mutators: add_variable, set_objective (model / iterable), add_constraint '
                 '(model, comparison, iterable; copy and move; hard and soft, both penalties), add_discrete (3 forms), remove/fix/flip/'
                 'change_vartype/relabel variables, fix_variables in place and copying, spin_to_binary, remove_constraint (cascade), '
